@@ -106,8 +106,8 @@ Proof.
   rewrite (sim_len _ _ Hs). reflexivity.
 Qed.
 
-Lemma parse_proto_sim s s' f proto :
-  sim s s' -> (0 < f_offP f)%nat -> (f_offP f <= len s)%nat -> parse_proto s' f proto = parse_proto s f proto.
+Lemma parse_proto_sim fx s s' f proto :
+  sim s s' -> (0 < f_offP f)%nat -> (f_offP f <= len s)%nat -> parse_proto fx s' f proto = parse_proto fx s f proto.
 Proof.
   intros Hs H0 H1. pose proof (sim_slfrom _ _ _ Hs H1) as Hp.
   unfold parse_proto.
@@ -130,9 +130,9 @@ Proof.
   cbn [bind len].
   destruct (Nat.leb_spec 20 (len s - 14)); cbn [bind]; [|reflexivity].
   repeat simstep Hp. repeat (rd; cbn [bind]).
-  match goal with |- context [if Nat.leb ?a ?b then _ else _] => destruct (Nat.leb_spec a b) end; cbn [bind]; [|reflexivity].
+  dcond; cbn [bind]; [|reflexivity].
   repeat simstep Hp. repeat (rd; cbn [bind]).
-  match goal with |- context [if Nat.leb ?a ?b then _ else _] => destruct (Nat.leb_spec a b) end; cbn [bind]; [|reflexivity].
+  dcond; cbn [bind]; [|reflexivity].
   repeat simstep Hp. repeat (rd; cbn [bind]).
   unfold bytes_at. repeat (rd; cbn [bind]).
   apply parse_proto_sim; cbn [f_offP]; auto; lia.
